@@ -12,6 +12,7 @@ entered through Here() and crashed) was exhibited by this machinery and repaired
 theorems are unconditional.  See the comment at the end of the file.
 -/
 import YaclibModel.Proofs.PipelineSpec
+import YaclibModel.Model.ResultAlg
 import YaclibModel.Extracted.Kernels
 import YaclibModel.Model.Skeletons
 
@@ -230,6 +231,77 @@ example : (run cfgEx {} (exEvents.take 9)).g.invoked = [] := by decide +kernel
 end Yaclib.Props.C02
 
 /-! ### T2: the kernel functions the mechanism was written from are still the ones in the source -/
+/-! ### The Result algebra (util/result.hpp; Model/ResultAlg.lean) — for EVERY pair of states
+
+`a` = what the target holds, `b` = what the source holds: any of value / exception / error / empty, with a live or a
+moved-from payload.  The differential of vlib/resultalg.py runs exactly these operations on `yaclib::Result`. -/
+namespace Yaclib.Props.C02.ResultAlgebra
+open Yaclib.ResultAlg
+
+/-- **assignment makes the target equal to the source's former content** (copy assignment): the source keeps it, no other
+    object changes -/
+theorem copy_assign (s : St) (i j : Nat) (a b : RS) (hij : i ≠ j) (hi : s.slots i = some a) (hj : s.slots j = some b) :
+    (step s (.copyA i j)).2 = .none ∧
+    (step s (.copyA i j)).1.slots i = some b ∧ (step s (.copyA i j)).1.slots j = some b ∧
+    ∀ k, k ≠ i → (step s (.copyA i j)).1.slots k = s.slots k := by
+  have hji : j ≠ i := fun h => hij h.symm
+  simp [step, hi, hj, hij, hji, St.put, upd]
+  intro k hk; simp [hk]
+
+/-- **move assignment**: the target equals the source's former content (seeded r2a-4: the Exception alternative was
+    re-created empty); the source keeps its STATE with a moved-from payload; no other object changes -/
+theorem move_assign (s : St) (i j : Nat) (a b : RS) (hij : i ≠ j) (hi : s.slots i = some a) (hj : s.slots j = some b) :
+    (step s (.moveA i j)).2 = .none ∧
+    (step s (.moveA i j)).1.slots i = some b ∧ (step s (.moveA i j)).1.slots j = some (movedFrom s.unit b) ∧
+    ∀ k, k ≠ i → k ≠ j → (step s (.moveA i j)).1.slots k = s.slots k := by
+  have hji : j ≠ i := fun h => hij h.symm
+  simp [step, hi, hj, hij, hji, St.put, upd]
+  intro k hk hk'; simp [hk, hk']
+
+/-- move assignment gives the target what copy assignment gives it -/
+theorem move_assign_eq_copy_assign_on_target (s : St) (i j : Nat) (a b : RS) (hij : i ≠ j) (hi : s.slots i = some a)
+    (hj : s.slots j = some b) : (step s (.moveA i j)).1.slots i = (step s (.copyA i j)).1.slots i := by
+  rw [(move_assign s i j a b hij hi hj).2.1, (copy_assign s i j a b hij hi hj).2.1]
+
+/-- copy / move CONSTRUCTION of slot i from slot j (whatever slot i was): the same two laws -/
+theorem copy_construct (s : St) (i j : Nat) (b : RS) (hij : i ≠ j) (hj : s.slots j = some b) :
+    (step s (.copyC i j)).1.slots i = some b ∧ (step s (.copyC i j)).1.slots j = some b := by
+  have hji : j ≠ i := fun h => hij h.symm
+  simp [step, hj, hij, hji, St.put, upd]
+
+theorem move_construct (s : St) (i j : Nat) (b : RS) (hij : i ≠ j) (hj : s.slots j = some b) :
+    (step s (.moveC i j)).1.slots i = some b ∧ (step s (.moveC i j)).1.slots j = some (movedFrom s.unit b) := by
+  have hji : j ≠ i := fun h => hij h.symm
+  simp [step, hj, hij, hji, St.put, upd]
+
+/-- a moved-from Result keeps its state (std::variant moves the alternative, the index stays), and moving twice is moving once -/
+theorem moved_from_keeps_state (u : Bool) (b : RS) :
+    (movedFrom u b).tag = b.tag ∧ movedFrom u (movedFrom u b) = movedFrom u b := by
+  cases b <;> cases u <;> simp [movedFrom, RS.tag]
+
+/-- `Ok()` is the dispatch on the state: the value, or the exception rethrown, or ResultError{error}, or ResultEmpty; the
+    const& flavour changes nothing, the && flavour leaves a moved-from Result -/
+theorem ok_dispatch (s : St) (i : Nat) (a : RS) (hi : s.slots i = some a) :
+    step s (.ok i) = (s, okObs a) ∧
+    (okObs a ≠ .bad → (step s (.okMove i)).2 = okObs a ∧ (step s (.okMove i)).1.slots i = some (movedFrom s.unit a)) := by
+  refine ⟨by simp [step, hi], fun h => ?_⟩
+  simp [step, hi, h, St.put, upd]
+
+/-- converting assignment `r = value / error / exception_ptr / StopTag{}` and construction build the named alternative -/
+theorem set_builds (s : St) (i : Nat) (a : RS) (c : Ctor) (hi : s.slots i = some a) :
+    (step s (.set i c)).1.slots i = some c.build ∧ (step s (.new i c)).1.slots i = some c.build := by
+  simp [step, hi, St.put, upd]
+
+/-- non-vacuity: the sequence of the seeded change (value target, exception source, move assignment, then look) -/
+example : let s0 : St := {}
+    let s1 := (step s0 (.new 0 (.val 5))).1
+    let s2 := (step s1 (.new 1 (.exc 3))).1
+    let s3 := (step s2 (.moveA 0 1)).1
+    s3.slots 0 = some (.exception (some 3)) ∧ s3.slots 1 = some (.exception none) ∧ (step s3 (.ok 0)).2 = .throwExc 3 := by
+  decide
+
+end Yaclib.Props.C02.ResultAlgebra
+
 namespace Yaclib.Props.C02.Tie
 open Yaclib
 
@@ -238,6 +310,8 @@ theorem tie_Core_Drop : Extracted.Kernels.Core_Drop = Skeletons.Core_Drop := rfl
 theorem tie_Core_Impl : Extracted.Kernels.Core_Impl = Skeletons.Core_Impl := rfl
 theorem tie_Core_Here : Extracted.Kernels.Core_Here = Skeletons.Core_Here := rfl
 theorem tie_Core_CallImpl : Extracted.Kernels.Core_CallImpl = Skeletons.Core_CallImpl := rfl
+/-- util/result.hpp, whole text (comments and white space dropped): the Result algebra model was written from it -/
+theorem tie_result_hpp : Extracted.Kernels.ResultSrc_result_hpp = Skeletons.ResultSrc_result_hpp := rfl
 theorem tie_Core_Done : Extracted.Kernels.Core_Done = Skeletons.Core_Done := rfl
 theorem tie_Core_CallResolveState : Extracted.Kernels.Core_CallResolveState = Skeletons.Core_CallResolveState := rfl
 theorem tie_Core_CallResolveAsync : Extracted.Kernels.Core_CallResolveAsync = Skeletons.Core_CallResolveAsync := rfl
